@@ -66,7 +66,7 @@ struct LangDef {
     language: Language,
     highlights: String,
     locals: String,
-    inj: [String; 4],
+    inj: [String; 5],
 }
 
 fn load_langs() -> Vec<LangDef> {
@@ -75,9 +75,9 @@ fn load_langs() -> Vec<LangDef> {
     let tmpl = zoo::load("tmpl").expect("zoo tmpl");
     let host = zoo::load("host").expect("zoo host");
     vec![
-        LangDef { language: stmt.language, highlights: STMT_HL.into(), locals: STMT_LOCALS.into(), inj: [String::new(), STMT_INJ_B.into(), STMT_INJ_B.into(), STMT_INJ_B.into()] },
-        LangDef { language: tmpl.language, highlights: q("tmpl", "highlights.scm"), locals: String::new(), inj: [q("tmpl", "injections.scm"), q("tmpl", "injections_b.scm"), q("tmpl", "injections.scm"), q("tmpl", "injections_c.scm")] },
-        LangDef { language: host.language, highlights: q("host", "highlights.scm"), locals: q("host", "locals.scm"), inj: [q("host", "injections.scm"), q("host", "injections.scm"), q("host", "injections.scm"), q("host", "injections_c.scm")] },
+        LangDef { language: stmt.language, highlights: STMT_HL.into(), locals: STMT_LOCALS.into(), inj: [String::new(), STMT_INJ_B.into(), STMT_INJ_B.into(), STMT_INJ_B.into(), STMT_INJ_B.into()] },
+        LangDef { language: tmpl.language, highlights: q("tmpl", "highlights.scm"), locals: String::new(), inj: [q("tmpl", "injections.scm"), q("tmpl", "injections_b.scm"), q("tmpl", "injections.scm"), q("tmpl", "injections_c.scm"), q("tmpl", "injections_d.scm")] },
+        LangDef { language: host.language, highlights: q("host", "highlights.scm"), locals: q("host", "locals.scm"), inj: [q("host", "injections.scm"), q("host", "injections.scm"), q("host", "injections.scm"), q("host", "injections_c.scm"), q("host", "injections.scm")] },
     ]
 }
 
@@ -1920,6 +1920,30 @@ fn main() {
         writeln!(out, "probe lossy {} {} {}/{}/{}", bit(&f, "ab\u{fffd}".as_bytes(), b"ab"), bit(&t, "\u{fffd}".as_bytes(), b""), hx(&f), hx(&t), hx(&t2)).unwrap();
     }
     let mut w = World { langs: load_langs(), highlighter: Highlighter::new(), spec_override: None };
+    // Behavioural probe of `Highlighter::highlight`'s initial layer order (two combined injection layers whose
+    // first boundaries are not in pattern order): is the identifier at 4..5 highlighted in place?
+    {
+        let names = names_of(&w.langs, 4);
+        let mut cfgs = Vec::new();
+        for (i, ld) in w.langs.iter().enumerate() {
+            let mut cfg = HighlightConfiguration::new(ld.language.clone(), LANGS[i], &ld.highlights, &ld.inj[4], &ld.locals).expect("config");
+            cfg.configure(&names);
+            cfgs.push(cfg);
+        }
+        let doc = b"<%= x %> hello a";
+        let cfgs_ref = &cfgs;
+        let mut in_place = false;
+        if let Ok(it) = w.highlighter.highlight(&cfgs[1], doc, None, None, move |name| lang_index(name).map(|i| &cfgs_ref[i])) {
+            for e in it.flatten() {
+                if let HighlightEvent::Source { start, end } = e {
+                    if start == 4 && end == 5 {
+                        in_place = true;
+                    }
+                }
+            }
+        }
+        writeln!(out, "probe initorder {}", in_place as u8).unwrap();
+    }
     let mut n = 0usize;
     if args.get(2).map(|s| s == "--spec").unwrap_or(false) {
         let specs = std::fs::read_to_string(&args[3]).unwrap();
@@ -2180,7 +2204,7 @@ fn main() {
     let mut fmulti = 0usize;
     for i in 0..nf {
         let root = i % 3;
-        let variant = (i / 3) % 4;
+        let variant = (i / 3) % 5;
         let doc: Vec<u8> = match root {
             0 => {
                 if rng.chance(1, 3) {
@@ -2190,7 +2214,15 @@ fn main() {
                     gen_stmt_locals(&mut rng, 2).into_bytes()
                 }
             }
-            1 => gen_tmpl(&stmt_gg, &mut rng, 2).into_bytes(),
+            1 => {
+                let mut d = gen_tmpl(&stmt_gg, &mut rng, 2);
+                if rng.chance(1, 3) {
+                    // an output before the first text: with two combined patterns the layers' first boundaries
+                    // are then not in pattern order
+                    d = format!("<%= {} %> {d}", rng.pick(&WORDS));
+                }
+                d.into_bytes()
+            }
             _ => {
                 let mut d = gen_host(&stmt_gg, &mut rng, 3);
                 if variant == 3 && rng.chance(1, 2) {
